@@ -45,8 +45,10 @@ def id (C : Crypto) (t : Token) : Bytes := C.hash t.signed
 def valid (C : Crypto) (t : Token) : Bool := C.vfy t.plain t.sig
 /-- both pointers are as long as the genesis hash (a SHA3-256 digest): the first test of gather_token -/
 def sized (g : Bytes) (t : Token) : Bool := t.prev.length == g.length && t.chash.length == g.length
-/-- what gather_token accepts to look at: digest-sized pointers and a signature of the tree key -/
-def ok (C : Crypto) (g : Bytes) (t : Token) : Bool := t.sized g && t.valid C
+/-- what gather_token accepts to look at: digest-sized pointers, a signature of the key's signature length that
+    verifies under the tree key -/
+def vok (C : Crypto) (t : Token) : Bool := t.sig.length == C.sigLen && t.valid C
+def ok (C : Crypto) (g : Bytes) (t : Token) : Bool := t.sized g && t.vok C
 /-- __eq__ -/
 def same (a b : Token) : Bool := a.signed == b.signed
 /-- everything but the attached content -/
@@ -219,7 +221,7 @@ def missing (tr : Tree) : List Bytes := tr.unc.map (·.prev)
 def walk (C : Crypto) (g : Bytes) (els : List Token) : Nat → Token → Option (List Token)
   | 0, _ => none
   | n + 1, cur =>
-    if !(cur.chash.length == g.length && cur.valid C) then none
+    if !(cur.chash.length == g.length && cur.vok C) then none
     else if cur.prev == g then some [cur]
     else match lookup C els cur.prev with
       | none => none
